@@ -14,7 +14,7 @@
 //	          (1)      back the oldest event this goroutine holds (no-op when it holds none)
 //	          (2 ms)   sleep milliseconds
 //	          (3 n)    runtime.Gosched n times
-//	          (4 k)    wait until k goroutines are parked at a gate (gives up after 2 s)
+//	          (4 k)    wait until k goroutines are parked at a gate (gives up after 1 s)
 //	          (5)      release every parked goroutine and stop parking
 //	          (6 us)   sleep microseconds
 //	          (7)      back the oldest held event a second time as well (double back: a misuse; only for self-tests)
@@ -135,9 +135,9 @@ func RunCase(cs hx.Sx) hx.Sx {
 
 	// harness-side accounting
 	var hm sync.Mutex
-	held := 0                               // events between "get returned" and "back returned"
-	heldSet := map[*pipeline.Event]int64{}  // between "get returned" and "back called"
-	freeSince := time.Now()                 // since when held < capacity (valid while held < capacity)
+	held := 0                              // events between "get returned" and "back returned"
+	heldSet := map[*pipeline.Event]int64{} // between "get returned" and "back called"
+	freeSince := time.Now()                // since when held < capacity (valid while held < capacity)
 	type thr struct {
 		inGet    bool
 		since    time.Time
@@ -174,7 +174,7 @@ func RunCase(cs hx.Sx) hx.Sx {
 		}
 		select {
 		case <-ch:
-		case <-time.After(4 * time.Second):
+		case <-time.After(1500 * time.Millisecond):
 		}
 		if idx >= 0 && idx < len(threads) {
 			hm.Lock()
@@ -290,7 +290,7 @@ func RunCase(cs hx.Sx) hx.Sx {
 						runtime.Gosched()
 					}
 				case 4:
-					deadline := time.Now().Add(2 * time.Second)
+					deadline := time.Now().Add(time.Second)
 					for time.Now().Before(deadline) {
 						gm.Lock()
 						n := parked
@@ -313,7 +313,7 @@ func RunCase(cs hx.Sx) hx.Sx {
 
 	// monitor: stuck waiters, overall deadline
 	limit := time.Duration(StuckPeriods) * interval
-	deadline := time.Now().Add(8*time.Second + 3*limit)
+	deadline := time.Now().Add(2500*time.Millisecond + 2*limit)
 	tick := time.NewTicker(interval / 3)
 	defer tick.Stop()
 	rescuing := false
